@@ -271,6 +271,21 @@ func TestVerifC06Structural(t *testing.T) {
 		mode := rapid.SampledFrom([]string{"honest", "honest", "flip",
 			"otherroot", "outoforder"}).Draw(t, "mode")
 		labels := []string{"mode=" + mode}
+		// A corrupted secret in bucket 0 cannot be detected when it
+		// arrives (it claims no earlier index); the NEXT secret, whose
+		// sub-tree covers it, exposes it. Steer a share of the corrupted
+		// cases there, with the next secret s buckets up (added after
+		// seeded change C06f).
+		if (mode == "flip" || mode == "otherroot") &&
+			rapid.IntRange(0, 2).Draw(t, "deepFollowUp") == 0 {
+
+			sh := uint(rapid.IntRange(1, 47).Draw(t, "followUpBucket"))
+			r := rapid.Uint64Range(0, c06Top).Draw(t, "followUpIdx")
+			idx := (r>>sh)<<sh + 1
+			if idx >= 3 && idx <= c06Top {
+				n = c06Top - idx
+			}
+		}
 
 		if n > c06Top {
 			// All 2^48 secrets received: nothing further to insert. The
@@ -360,6 +375,23 @@ func TestVerifC06Structural(t *testing.T) {
 				labels = append(labels, "rejected")
 			}
 			nontrivial = b >= 2 || mode != "honest"
+			if err == nil && cand != good && n < c06Top {
+				// Accepted although corrupted (only possible in bucket
+				// 0): the store now holds a value that is not part of
+				// the chain. The next genuine secret is not consistent
+				// with it and must be refused - whichever of the two
+				// is wrong, the store cannot reproduce both.
+				nb := refCtz(idx - 1)
+				g := chainhash.Hash(refSecret(seed, n+1))
+				if err2 := store.AddNextEntry(&g); err2 == nil {
+					t.Fatalf("n=%d mode=%s: a corrupted secret was stored "+
+						"in bucket 0 and the next secret (bucket %d), "+
+						"which does not derive it, was accepted", n, mode,
+						nb)
+				}
+				labels = append(labels, "followup_rejected",
+					fmt.Sprintf("followup_bucket=%d", nb))
+			}
 			if err != nil || cand != good {
 				// rejected or undetectably corrupted (bucket 0): the
 				// case ends here, earlier lookups must still work.
